@@ -135,6 +135,16 @@ TEXT = {
         "note": COMMON_NOTE + " Mutex / channel semantics of the Go runtime are assumed; fairness is not modelled; preemption is explored at the yield points only.",
         "technique": "Lean 4 proof (one-lock linearizability theorem + exactly-one-winner lemmas on the sequential Model); exhaustive interleaving replay of real HTTP handlers with serial-order search through the Model",
     },
+    "C18": {
+        "level": "Theorems about the scan as a machine (open a range = take a snapshot, visit its rows, close; a concurrent write may occur between ANY two steps — a superset of the code's windows), "
+                 "for every run: what has been visited is, range by range, the rows of that range in the snapshot the range was given, and every snapshot is a state the table really had; hence "
+                 "keys strictly ascending and no duplicates (merged ranges are separated, C03; states are sorted), every returned row is a row of one real table state (never a mixture), rows that "
+                 "were in every state are returned, writers can always write and the scan always has an enabled step (ends OK), and without writes it is the sequential scan of C03. Tied to the code "
+                 "by multi-message scans over 1200-2400 rows on both leveldb engines with SetCell / DeleteFromRow / ReadModifyWrite / MutateRows issued from inside stream.Send on rows before, at, "
+                 "right after and far after the scan position; the streamed rows must equal the machine's.",
+        "note": COMMON_NOTE + " goleveldb's iterator-is-a-snapshot property is assumed by the machine and checked from outside by the correspondence run.",
+        "technique": "Lean 4 proof (invariant over all interleavings of scan steps and writes); write-injecting scan replay against the machine",
+    },
 }
 
 NOT_APPLICABLE = {("C%02d" % i): "check not built yet in this session (work in progress; see DESIGN.md section 8)" for i in range(1, 21)}
